@@ -46,8 +46,19 @@ EXTENDS Integers, Sequences, FiniteSets, TLC, Json, IOUtils
 (* is evaluated by TLC a single time (a cfg substitution U <- ... is not)   *)
 U == ndJsonDeserialize(IOEnv.VERIF_UNIVERSE)[1]
 
+(* "exit" is the capability to END THE HOST PROCESS.  The statement names the  *)
+(* effect (the host is gone), not a builtin: the process can end because a    *)
+(* primitive asked for it (exit, .quit), or because the Go runtime ended it   *)
+(* while it ran library code for the script -- a fatal error that recover()   *)
+(* cannot stop (Go recursion without a bound) or a panic that nothing in the  *)
+(* host recovers.  Both are observations of the one capability (HostEvents).  *)
 Caps == {"file-read", "file-write", "exec", "env-read", "env-write", "exit"}
 CapSeq == <<"file-read", "file-write", "exec", "env-read", "env-write", "exit">>
+
+(* primitives of the HOST that the harness binds in the unsandboxed control   *)
+(* only: called without arguments they end the process as a defect would      *)
+(* (unbounded Go recursion; a panic in a goroutine of its own)                *)
+HostFaults == {"zvhostoverflow", "zvhostpanic"}
 
 (* capability of the known outside-world primitives, by documented purpose *)
 PrimCap(n) ==
@@ -56,14 +67,14 @@ PrimCap(n) ==
       [] n \in {"system", "sys"}                                    -> {"exec"}
       [] n = "getenv"                                               -> {"env-read"}
       [] n = "setenv"                                               -> {"env-write"}
-      [] n \in {"exit", ".quit"}                                    -> {"exit"}
+      [] n \in {"exit", ".quit"} \cup HostFaults                    -> {"exit"}
       [] OTHER                                                      -> {}
 
 (* macros of the standard setup written in script text: what they expand to *)
 Expands(n) == IF n = "req" THEN {"source"} ELSE {}
 
 Known == {"source", "slurpf", "bload", "include", "import", "req", "writef", "save", "owritef",
-          "bsave", "system", "sys", "getenv", "setenv", "exit", ".quit"}
+          "bsave", "system", "sys", "getenv", "setenv", "exit", ".quit"} \cup HostFaults
 
 (* the observable event that demonstrates a capability (see fam_sandbox.go) *)
 EventOf(cap) ==
@@ -73,7 +84,29 @@ EventOf(cap) ==
       [] cap = "env-read"   -> "envleak"
       [] cap = "env-write"  -> "envchange"
       [] cap = "exit"       -> "exit"
-Events == {"leak", "open", "modify", "create", "marker", "envleak", "envchange", "exit"}
+Events == {"leak", "open", "modify", "create", "marker", "envleak", "envchange", "exit", "fatal"}
+
+(* THE HOST PROTOCOL.  The host is a process that evaluates script text and   *)
+(* then ANSWERS: it reports on the evaluation and takes the next one.  After  *)
+(* a probe the harness finds the host in one of these states:                 *)
+(*   up       it answered                                                     *)
+(*   exit     the process ended with a status, no report of the Go runtime    *)
+(*   fatal    the Go runtime ended the process (fatal error, unrecovered panic)*)
+(*   stopped  no answer within the time limit: the HARNESS stopped it         *)
+(*   starved  the MACHINE refused it memory (out of memory, killed)           *)
+(* exit and fatal are the observations of the capability "exit".  stopped and *)
+(* starved are not: a script may compute for ever and may ask for more memory *)
+(* than the machine has -- the statement bounds neither time nor memory, and  *)
+(* whether a request for memory ends the process is decided by the machine.   *)
+HostStates == {"up", "exit", "fatal", "stopped", "starved"}
+HostEvents == {"exit", "fatal"}
+(* the event set and the host state of one probe tell the same story *)
+HostConsistent(host, evset) ==
+    /\ host \in HostStates
+    /\ host \in HostEvents <=> evset \cap HostEvents # {}
+    /\ host \in HostEvents => host \in evset
+(* the events that show the capabilities of a known primitive in the control *)
+ShownBy(n) == IF n \in HostFaults THEN {"fatal"} ELSE {EventOf(cap) : cap \in PrimCap(n)}
 
 Cfgs == U.cfgs
 CfgIx == 1..Len(Cfgs)
@@ -125,7 +158,11 @@ BaseCap(c, i) ==
     THEN UNION {PrimCap(m) : m \in {m \in Expands(NameOf(i)) : CallableN(c, m)}}
     ELSE PrimCap(NameOf(i))
 
-(* capability of a derived handle: a derivation neither adds nor removes capability *)
+(* capability of a derived handle: a derivation neither adds nor removes capability. *)
+(* The ARGUMENTS are data, and data has no capability: CapOf is not a function of    *)
+(* the argument shape, whether it is a canary path, a command, an environment name   *)
+(* or a value built to strain the Go code that walks it (U.shapes: a value that      *)
+(* contains itself, a text nested without bound, a form that leaves no value).       *)
 CapOf(c, i, route) == IF Live(c, i, route) THEN BaseCap(c, i) ELSE {}
 
 CandidateNames(c) == {i \in NameIx : Callable(c, i) /\ BaseCap(c, i) # {}}
@@ -174,15 +211,19 @@ Define == /\ defs = {} /\ world = {} /\ route = <<>> /\ Shadow(cfg) # {}
           /\ defs' = Shadow(cfg)
           /\ UNCHANGED <<cfg, nm, route, world>>
 
-Derive(r) == /\ Len(route) < MaxDepth
+(* a host that is gone evaluates nothing more *)
+HostUp == "exit" \notin world
+
+Derive(r) == /\ Len(route) < MaxDepth /\ HostUp
              /\ route' = Append(route, r)
              /\ UNCHANGED <<cfg, nm, world, defs>>
 
-Call == /\ world' = world \cup CapOf(cfg, nm, route)
+Call == /\ HostUp
+        /\ world' = world \cup CapOf(cfg, nm, route)
         /\ UNCHANGED <<cfg, nm, route, defs>>
 
 (* NOT part of the design: reaching a primitive that no binding gives *)
-Reflect == /\ Mint
+Reflect == /\ Mint /\ HostUp
            /\ world' = world \cup PrimCap(NameOf(nm))
            /\ UNCHANGED <<cfg, nm, route, defs>>
 
@@ -199,4 +240,6 @@ NoMinting == world \subseteq Candidates(cfg)
 DeadStaysDead == ~Callable(cfg, nm) => world = {}
 (* THE PROPERTY (of the configuration, given the capability table): *)
 SandboxClosed == Sandboxed(cfg) => world = {}
+(* its last clause alone: whatever a sandboxed script does, the host is there to answer *)
+HostSurvives == Sandboxed(cfg) => HostUp
 =============================================================================
